@@ -151,12 +151,12 @@ pub fn child_main(dir: PathBuf, serve: bool) -> ! {
                 }
             });
         }
-        // wait for the socket
-        for _ in 0..500 {
-            if dir.join("sock").exists() {
+        // wait until the socket accepts connections (the file appears at bind(), before listen())
+        for _ in 0..1000 {
+            if std::os::unix::net::UnixStream::connect(dir.join("sock")).is_ok() {
                 break;
             }
-            std::thread::sleep(Duration::from_millis(10));
+            std::thread::sleep(Duration::from_millis(5));
         }
     }
 
